@@ -64,3 +64,31 @@ Example C19_example :
     = Some [bs "a"; bs "b"; bs "c"; bs "d"; bs "e"; bs "f"]
   /\ strict_prefix [0]%nat [0; 1]%nat.
 Proof. vm_compute. repeat split. exists [1%nat]. split; [discriminate | reflexivity]. Qed.
+
+(* ---- tie to the Go source by translation of whole function bodies (gen/ImpGen.v, written
+   by `harness gen-imp` on every run, in the embedding of Model/GoSem.v) ------------------- *)
+From Bio.gen Require ImpGen.
+From Bio.Model Require GoSem.
+From Bio.Proofs Require ImpProofs ImpProofsI.
+
+(* traverse as translated from traverse.go (the explicit stack of traversalStep values, the
+   pre / post yields, the pop by reslicing, the push followed by stack[stepi].i++) yields, to a
+   consumer that never stops, exactly the nodes of the model's traversal in the same order,
+   for every tree and both orders.  Fuel above 2*size+2 runs the `for len(stack) > 0` loop
+   to its end.  (Stopping early is C18's subject: the two yields are guarded, which
+   C18_source_yields_guarded reads off the same source.) *)
+Theorem C19_traverse_is_source : forall fuel pre t l, (2 * size t + 2 < fuel)%nat ->
+  traverse pre t = Ok l ->
+  ImpGen.imp_newick_Node_traverse fuel (ImpProofsI.node_of t) pre = GoSem.Ret (map ImpProofsI.nd l).
+Proof. exact ImpProofsI.imp_traverse. Qed.
+Print Assumptions C19_traverse_is_source.
+
+Example C19_source_example :
+  let t := Node (bs "r") zeroF [Node (bs "a") zeroF [Node (bs "c") zeroF []]; Node (bs "b") zeroF []] in
+  map ImpGen.imp_newick_Node_Name
+    (match ImpGen.imp_newick_Node_traverse 20 (ImpProofsI.node_of t) true with GoSem.Ret l => l | _ => [] end)
+  = [bs "r"; bs "a"; bs "c"; bs "b"]
+  /\ map ImpGen.imp_newick_Node_Name
+    (match ImpGen.imp_newick_Node_traverse 20 (ImpProofsI.node_of t) false with GoSem.Ret l => l | _ => [] end)
+  = [bs "c"; bs "a"; bs "b"; bs "r"].
+Proof. vm_compute. split; reflexivity. Qed.
